@@ -891,7 +891,7 @@ func TestCheck(t *testing.T) {
 	exposure := 2 * time.Millisecond
 
 	rng := r.Rand("c07")
-	nFam := r.N(8000, 480000)
+	nFam := r.N(8000, 1500000)
 	for i := 0; i < nFam; i++ {
 		f := genFamily(rng)
 		if i%32 == 0 {
@@ -899,13 +899,13 @@ func TestCheck(t *testing.T) {
 		}
 		c.runFamily(f, rng)
 	}
-	nHold := r.N(400, 32000)
+	nHold := r.N(400, 100000)
 	for i := 0; i < nHold; i++ {
 		cs := genHold(rng)
 		r.Case("hold spots=%d flush=%v preload=%d others=%d", cs.Spots, cs.UseFlush, len(cs.Preload), len(cs.Others))
 		c.hold(cs, exposure)
 	}
-	nConc := r.N(800, 96000)
+	nConc := r.N(800, 300000)
 	for i := 0; i < nConc && c.concStuck < 2; i++ {
 		cs := genConc(rng)
 		r.Case("conc spots=%d goroutines=%d flushes=%d batches=%d", cs.Spots, cs.Goroutines, cs.Flushes, len(cs.Batches))
